@@ -52,7 +52,7 @@ def replay(module, call, env=None):
 def run_obligation(o, tier, seed):
     env = {"VERIF_TIER": tier, "VERIF_SEED": str(seed)}
     env.update(o.env)
-    res = {"name": o.name, "engine": o.engine, "bounds": o.bounds, "stubs": o.stubs, "note": o.note,
+    res = {"name": o.name, "engine": o.engine, "bounds": o.bounds, "stubs": o.stubs, "note": o.note, "env": env,
            "paths": 0, "decisions": 0, "queries": 0, "solver_s": 0.0, "candidates": [], "validated": 0}
     if isinstance(o, CH):
         cmd = [PY, "-m", "engine.ch_driver", "--module", o.module, "--func", o.func, "--timeout", str(o.timeout),
@@ -175,7 +175,7 @@ def main():
         for n, c in enumerate(r["candidates"]):
             if not c.get("call"):
                 continue
-            rp = replay(c["module"], c["call"])
+            rp = replay(c["module"], c["call"], r.get("env"))       # same partition / tier environment as the run that produced it
             replays_done += 1
             c["replay"] = rp
             if rp.get("reproduced"):
@@ -186,7 +186,7 @@ def main():
                 os.makedirs(rdir, exist_ok=True)
                 path = os.path.join(rdir, "%s-%d.json" % (r["name"], n))
                 with open(path, "w") as f:
-                    json.dump({"property": pid, "obligation": r["name"], "module": c["module"], "call": c["call"],
+                    json.dump({"property": pid, "obligation": r["name"], "module": c["module"], "call": c["call"], "env": r.get("env") or {},
                                "solver_report": c.get("desc"), "observed": rp.get("outcome"), "traceback": rp.get("traceback"),
                                "how": "cd /verif && ./vcheck replay " + path}, f, indent=1)
                 confirmed.append(path)
